@@ -82,6 +82,12 @@ CHECKS.update({
     note="Trusted: TLC, Validate.tla, the tokenisation of error texts into (kind, parent, child). Component-level and datatype/table/length checks are outside the compared levels. Structures with the ANYHL7SEGMENT placeholder are skipped.",
     ref="DESIGN.md §4 C04, §3.5"),
 })
+CHECKS.update({
+ "C05": dict(technique="Two instances of the TLA+ reference container (Strict = TRUE / FALSE) compared by TLC over the STRICT state graph (StrictnessMC); the same TLC behaviours and a corpus of texts and leaf values executed in lock-step under STRICT and TOLERANT on real elements, judged by the TLC trace specification StrictnessTrace",
+    text="TLC shows on every strict-reachable state x operation that each outcome STRICT accepts is an outcome TOLERANT accepts and that strict states never exceed a cardinality or hold a foreign / other-level child. Paths of the strict graph x operations and simulated strict walks (6 objects, 4 children, 3 names) are executed in lock-step on STRICT and TOLERANT copies of real segments and groups until STRICT refuses; segment lines with valid leaves and single deviations (invalid / over-long leaf, too many repetitions, components, subcomponents, fields), leaf pools of every base datatype, fields, components and messages are parsed at both levels. TLC requires: accepted under STRICT => accepted under TOLERANT, same encoding, same validation report, and no validator error other than missing required children.",
+    note="Trusted: TLC, ElementTree.tla, the classification of validator errors from their text. Known findings: STRICT encodes groups in structure order (TOLERANT: insertion order); STRICT accepts Z-segments but does not encode them.",
+    ref="DESIGN.md §4 C05, §3.7"),
+})
 NOT_YET = {}
 def main():
     props = [json.loads(l) for l in open(os.path.join(HERE, "properties.jsonl"))]
